@@ -395,6 +395,12 @@ class SetCookie(Contract):
             return _VList(list(obj.items_))
         return None
 
+    def getattr_hook(self, X, obj, attr):
+        if isinstance(obj, _Morsel) and attr in ('coded_value', 'value', 'key'):
+            # what the cookie jar made of a stored value: some text (library), of any length
+            return _Text(X.fresh(Txt, 'morsel_' + attr))
+        return None
+
     def isinstance_hook(self, X, v, classes):
         if isinstance(v, _Text):
             return z3.BoolVal(str in classes)
